@@ -529,11 +529,35 @@ func runMarshal(c *Ctx) {
 	for _, l := range []int{255, 256, 65535, 65536, 70000} {
 		c.marshalCase(&node{kind: 'A', typ: '*', kids: []*node{{kind: 'S', typ: '$', s: strings.Repeat("x", l)}, {kind: 'I', typ: ':', i: int64(l)}}}, false)
 	}
-	wide := &node{kind: 'A', typ: '~'}
-	for i := 0; i < 300; i++ {
-		wide.kids = append(wide.kids, &node{kind: 'I', typ: ':', i: int64(i)})
+	// wide aggregates: below, at and above every element count at which a decoder might cap an allocation
+	// (1<<10 = maxPreallocMsgs of the RESP reader), as arrays, sets and maps (2 entries per pair), top level
+	// and nested with siblings AFTER them (a short-decoded aggregate shifts everything that follows)
+	wideOf := func(t byte, n int, strs bool) *node {
+		w := &node{kind: 'A', typ: t}
+		for i := 0; i < n; i++ {
+			if strs && i%2 == 0 {
+				w.kids = append(w.kids, &node{kind: 'S', typ: '$', s: "f" + strconv.Itoa(i)})
+			} else {
+				w.kids = append(w.kids, &node{kind: 'I', typ: ':', i: int64(i)})
+			}
+		}
+		return w
 	}
-	c.marshalCase(wide, false)
+	c.marshalCase(wideOf('~', 300, false), false)
+	for i, n := range []int{1023, 1024, 1025, 1026, 1500, 2048, 4096} {
+		c.Hit("wide-aggregate")
+		c.marshalCase(wideOf(aggTypes[i%3], n, i%2 == 1), false)
+	}
+	c.marshalCase(wideOf('%', 2*513, true), false) // a map of 513 pairs
+	c.marshalCase(wideOf('%', 2*600, true), false)
+	after := []*node{{kind: 'S', typ: '$', s: "after"}, {kind: 'I', typ: ':', i: 7}, {kind: 'A', typ: '*', kids: []*node{{kind: 'S', typ: '+', s: "OK"}}}}
+	c.marshalCase(&node{kind: 'A', typ: '*', kids: append([]*node{wideOf('*', 1025, false)}, after...)}, false)
+	c.marshalCase(&node{kind: 'A', typ: '%', kids: []*node{{kind: 'S', typ: '$', s: "k1"}, wideOf('~', 1500, true), {kind: 'S', typ: '$', s: "k2"}, wideOf('%', 1026, true)}}, false)
+	c.marshalCase(&node{kind: 'A', typ: '*', kids: []*node{{kind: 'A', typ: '*', kids: []*node{wideOf('*', 1030, false), {kind: 'I', typ: ':', i: -1}}}, {kind: 'S', typ: '$', s: "tail"}}}, false)
+	if c.Tier == "thorough" {
+		c.marshalCase(wideOf('*', 20000, true), false)
+		c.marshalCase(&node{kind: 'A', typ: '~', kids: append([]*node{wideOf('%', 2*5000, true)}, after...)}, false)
+	}
 }
 
 func init() {
@@ -547,7 +571,7 @@ func init() {
 		return false
 	})
 	suites["marshal"] = suite{
-		rule: "message trees built with VerifMsg (S/I/A kinds under every type byte incl. ones the reader never pairs them with, attrs, int64 boundaries, binary strings, depth<=5): CacheSize (`sz`), CacheMarshal bytes (`ms`, three buffer modes), CacheUnmarshalView on the full buffer, with trailing bytes and on EVERY proper prefix (`un`, model lines; exact-capacity copies so that an over-read cannot hide in spare capacity); oracle lines `!rt` (unmarshal(marshal m) must be the normalised tree with the same expiry) and `!tr` (every truncation point must be ErrCacheUnmarshal); exhaustive for all trees of depth<=1 over 8 leaves x {*,%,~} and sampled depth 2; malformed stream: 1-3 byte corruptions of valid buffers and 29 fixed hostile buffers (negative/overflowing/huge sizes) where panic/oom answers are allowed but must agree with the model (inputs requesting > 10 GiB run in a child with a 4 GiB address space; the band in between is not generated); `ttl`: setExpireAt/getExpireAt packing. non-trivial = distinct op on a tree with an aggregate or attribute, any prefix/corrupted buffer, any ttl value",
+		rule: "message trees built with VerifMsg (S/I/A kinds under every type byte incl. ones the reader never pairs them with, attrs, int64 boundaries, binary strings, depth<=5): CacheSize (`sz`), CacheMarshal bytes (`ms`, three buffer modes), CacheUnmarshalView on the full buffer, with trailing bytes and on EVERY proper prefix (`un`, model lines; exact-capacity copies so that an over-read cannot hide in spare capacity); oracle lines `!rt` (unmarshal(marshal m) must be the normalised tree with the same expiry) and `!tr` (every truncation point must be ErrCacheUnmarshal); wide aggregates of 1023..4096 elements (arrays, sets, maps of > 512 pairs; top level and nested with siblings after them); exhaustive for all trees of depth<=1 over 8 leaves x {*,%,~} and sampled depth 2; malformed stream: 1-3 byte corruptions of valid buffers and 29 fixed hostile buffers (negative/overflowing/huge sizes) where panic/oom answers are allowed but must agree with the model (inputs requesting > 10 GiB run in a child with a 4 GiB address space; the band in between is not generated); `ttl`: setExpireAt/getExpireAt packing. non-trivial = distinct op on a tree with an aggregate or attribute, any prefix/corrupted buffer, any ttl value",
 		run:  runMarshal,
 		replay: func(c *Ctx, lines []string) {
 			for _, l := range lines {
